@@ -182,6 +182,20 @@ def generate(rng, tier):
             yield {'kind': 'repeat', 'conn': _conn(role, 0), 'n': 200}
 
 
+def classify(case, sig):
+    """D11c: a user plugin raising from on_upstream_connection_close / on_access_log makes
+    HttpProxyPlugin.on_client_connection_close skip upstream.close() (socket left to the interpreter)"""
+    if sig == 'up-socket-never-closed' and case['kind'] in ('real', 'repeat'):
+        conns = case['conns'] if case['kind'] == 'real' else [case['conn']]
+        if any(c['role'] in ('p:boom-close', 'p:boom-log') for c in conns):
+            return 'D11c'
+    return None
+
+
+def finding_witnesses():
+    return {'D11c': {'kind': 'real', 'conns': [_conn('p:boom-close', 0, adv=1, kind='plugin')], 'sched': []}}
+
+
 def neighbours(case):
     if case['kind'] == 'hist':
         ops = case['ops']
